@@ -44,7 +44,7 @@ fn start_point(rng: &mut Rng, idx: u64) -> (f64, f64) {
         }
         4 => sign * off(rng),                                   // equator
         5 => sign * (86.9 - rng.f64() * 0.3),                   // near 87
-        6 => *rng.pick(&[12.0, -6.0, 0.0, 30.0, 42.0, 6.0 * 7.0 + 360.0 / 59.0 * 0.0]), // CPR-zero latitudes
+        6 => *rng.pick(&[12.0, -6.0, 0.0, 30.0, 42.0, 360.0 / 59.0, 2.0 * 360.0 / 59.0, -3.0 * 360.0 / 59.0, 7.0 * 360.0 / 59.0]), // CPR-zero latitudes (even: multiples of 6, odd: multiples of 360/59)
         _ => rng.f64() * 172.0 - 86.0,
     };
     let lon = match rng.below(8) {
@@ -69,7 +69,7 @@ fn pair_gap(rng: &mut Rng) -> i64 {
         10 => 10_000_001,
         11 => 10_001_000,
         12 => 11 * s,
-        13 => rng.range(8 * s, 12 * s),
+        13 => { let r = rng.range(8 * s, 12 * s); *rng.pick(&[9_499_999, 9_500_000, 9_500_001, 10_499_999, 10_500_000, r]) }
         14 => rng.range(2 * s, 6 * s),
         _ => rng.range(0, 30 * s),
     }
@@ -82,7 +82,7 @@ fn gen(rng: &mut Rng, idx: u64, tier: Tier) -> Case {
     if rng.chance(0.5) { args.push("--use-update-method".into()); }
     if rng.chance(0.6) {
         let (la, lo) = (rng.f64() * 170.0 - 85.0, rng.f64() * 358.0 - 179.0);
-        args.push(match rng.below(3) { 0 => format!("--observer-coord={:.5},{:.5}", la, lo), 1 => format!("--observer-coord= {:.4} , {:.4} ", la, lo), _ => format!("--observer-coord={:.0},{:.0}", la, lo) });
+        args.push(match rng.below(5) { 0 => format!("--observer-coord={:.5},{:.5}", la, lo), 1 => format!("--observer-coord= {:.4} , {:.4} ", la, lo), 2 => format!("--observer-coord={:+.3},\t{:+.3}", la, lo), 3 => format!("--observer-coord={:.0},{:.0}", la.signum() * 0.0, lo), _ => format!("--observer-coord={:.0},{:.0}", la, lo) });
     }
     let mut truth: BTreeMap<String, (f64, f64)> = BTreeMap::new();
     let mut events: Vec<(i64, Vec<u8>, String)> = vec![]; // absolute time
@@ -93,12 +93,13 @@ fn gen(rng: &mut Rng, idx: u64, tier: Tier) -> Case {
         ac.lat = lat;
         ac.lon = lon;
         let hdg = rng.f64() * std::f64::consts::TAU;
+        let parked = rng.chance(0.2); // a hovering / parked-in-the-air aircraft repeats its CPR fields exactly
         let mut t = rng.range(0, 2_000_000);
         let mut odd = rng.chance(0.5);
         for _ in 0..n_frames {
             if rng.chance(0.6) {
                 // position squitter
-                let step_m = rng.f64() * 300.0;
+                let step_m = if parked { 0.0 } else { rng.f64() * 300.0 };
                 ac.lat = (ac.lat + step_m * hdg.cos() / M_PER_DEG).clamp(-86.99, 86.99);
                 let coslat = ac.lat.to_radians().cos().max(0.05);
                 ac.lon += step_m * hdg.sin() / (M_PER_DEG * coslat);
